@@ -7,6 +7,7 @@ fork on comparisons).  np.empty fills with Poison: using a never-written slot is
 from __future__ import annotations
 
 import numpy as np
+import z3
 
 from e2_pysym import core as E
 
@@ -39,11 +40,56 @@ def is_poison(x):
     return isinstance(x, Poison)
 
 
+_RAW_DTYPE = np.ndarray.dtype  # the C-level getset descriptor (SymArr subclasses may report a logical dtype)
+
+
+def raw_dtype(x):
+    return _RAW_DTYPE.__get__(x)
+
+
+def _trunc(v):
+    """numpy's float -> integer storage conversion (truncation toward zero), symbolic or concrete."""
+    if isinstance(v, E.SymBool):
+        return v * 1
+    if isinstance(v, E.SymReal):
+        e = v.e
+        if not isinstance(e, z3.ExprRef):
+            return int(e)
+        return E.wrap(z3.If(e >= 0, z3.ToInt(e), -z3.ToInt(-e)))
+    if isinstance(v, (E.SymInt, Poison)) or v is None:
+        return v
+    if isinstance(v, (bool, np.bool_)):
+        return int(v)
+    try:
+        return int(v)
+    except Exception:
+        return v
+
+
+def _cast(v, ldtype):
+    """What numpy does to a value written into storage of the given (logical) dtype."""
+    if ldtype is None or ldtype.kind not in "iu":
+        return v
+    if isinstance(v, np.ndarray) or isinstance(v, (list, tuple)):
+        a = np.asarray(v, dtype=object)
+        out = np.empty(a.shape, dtype=object)
+        for ix in np.ndindex(*a.shape):
+            out[ix] = _trunc(a[ix])
+        return out if a.shape else out[()]
+    return _trunc(v)
+
+
 class SymArr(np.ndarray):
-    """object ndarray; index arrays holding symbolic ints are concretised element-wise (forking)."""
+    """object ndarray; index arrays holding symbolic ints are concretised element-wise (forking).  `ldtype` is the
+    dtype the real code asked for at allocation: writes into integer storage truncate like numpy's."""
+
+    ldtype = None
 
     def __new__(cls, arr):
         return np.asarray(arr, dtype=object).view(cls)
+
+    def __array_finalize__(self, obj):
+        self.ldtype = getattr(obj, "ldtype", None)
 
     @staticmethod
     def _fix_index(idx):
@@ -51,7 +97,7 @@ class SymArr(np.ndarray):
             return tuple(SymArr._fix_index(i) for i in idx)
         if isinstance(idx, (E.SymInt, E.SymBool)):
             return int(idx)
-        if isinstance(idx, np.ndarray) and idx.dtype == object:
+        if isinstance(idx, np.ndarray) and raw_dtype(idx) == object:
             flat = [int(i) for i in idx.reshape(-1)]
             return np.asarray(flat, dtype=np.int64).reshape(idx.shape)
         if isinstance(idx, list) and any(isinstance(i, (E.SymInt,)) for i in idx):
@@ -63,14 +109,34 @@ class SymArr(np.ndarray):
         return r
 
     def __setitem__(self, idx, v):
-        super().__setitem__(self._fix_index(idx), v)
+        super().__setitem__(self._fix_index(idx), _cast(v, self.ldtype))
+
+
+class TypedSymArr(SymArr):
+    """SymArr that reports its logical dtype through `.dtype` (used only where the code under analysis derives an
+    allocation dtype from an existing array: the 0-length placeholders and, with NpShim(typed=True), np.asarray)."""
+
+    @property
+    def dtype(self):
+        return self.ldtype if self.ldtype is not None else raw_dtype(self)
+
+
+def _infer_ldtype(x):
+    flat = list(np.asarray(x, dtype=object).reshape(-1))
+    if any(isinstance(v, (E.SymReal, float, np.floating)) or (hasattr(v, "denominator") and not isinstance(v, (int, np.integer, E.SymInt))) for v in flat):
+        return np.dtype(float)
+    if flat and all(isinstance(v, (E.SymBool, bool, np.bool_)) for v in flat):
+        return np.dtype(bool)
+    if flat and all(isinstance(v, (E.SymInt, E.SymBool, int, np.integer, bool, np.bool_)) for v in flat):
+        return np.dtype(np.int64)
+    return None
 
 
 def _has_sym(x):
     if isinstance(x, (E.SymInt, E.SymReal, E.SymBool, Poison)):
         return True
     if isinstance(x, np.ndarray):
-        return x.dtype == object
+        return raw_dtype(x) == object
     if isinstance(x, (list, tuple)):
         return any(_has_sym(i) for i in x)
     return False
@@ -79,8 +145,9 @@ def _has_sym(x):
 class NpShim:
     """Stands in for the `np` name inside the module under analysis."""
 
-    def __init__(self, always_object=True):
+    def __init__(self, always_object=True, typed=False):
         self._obj = always_object
+        self._typed = typed
 
     def __getattr__(self, k):
         return getattr(np, k)
@@ -90,9 +157,11 @@ class NpShim:
         a = np.empty(shape, dtype=object)
         for idx in np.ndindex(*shape):
             a[idx] = Poison(f"np.empty{shape}[{idx}]")
-        out = SymArr(a)
-        out_dtype = np.dtype(dtype)
-        _DTYPES[id(out)] = out_dtype
+        out = TypedSymArr(a) if a.size == 0 else SymArr(a)
+        try:
+            out.ldtype = None if np.dtype(dtype) == object else np.dtype(dtype)
+        except TypeError:
+            out.ldtype = None
         return out
 
     def zeros(self, shape, dtype=float, **kw):
@@ -102,13 +171,17 @@ class NpShim:
         if isinstance(x, SymArr):
             return x
         if _has_sym(x):
+            if self._typed and dtype is None:
+                out = TypedSymArr(np.asarray(x, dtype=object))
+                out.ldtype = _infer_ldtype(x)
+                return out
             return SymArr(np.asarray(x, dtype=object))
         return np.asarray(x, dtype=dtype, **kw) if dtype is not None else np.asarray(x, **kw)
 
     array = asarray
 
     def abs(self, x):
-        if isinstance(x, np.ndarray) and x.dtype == object:
+        if isinstance(x, np.ndarray) and raw_dtype(x) == object:
             return SymArr(np.frompyfunc(abs, 1, 1)(x))
         return np.abs(x)
 
@@ -124,7 +197,6 @@ class NpShim:
         return np.mean(x, *a, **k)
 
 
-_DTYPES = {}
 
 
 class JnpShim:
